@@ -155,7 +155,9 @@ def run(ctx, chk):
     # "while other transactions are still open ...": the idle test is only as good as the token map - who may
     # write it and how an entry is removed (by its token, once) are the C07-a / C07-b clauses
     import rules_c07
-    sub7 = Sub(chk, "C19/token-map", lambda r: r in ("C07-a/who-may-write", "C07-b/remove", "C07-b/remove-args"))
+    # (an entry recorded before its reservation has succeeded - C07-c/ok-after-insert - makes the map non-empty for good)
+    sub7 = Sub(chk, "C19/token-map", lambda r: r in ("C07-a/who-may-write", "C07-b/remove", "C07-b/remove-args", "C07-c/ok-after-insert",
+                                                     "C07-c/insert"))
     rules_c07.run(ctx, sub7)
     chk.floor("token-map obligations (shared with C07)", sub7.count, 4)
     chk.floor("C19 obligations", len(chk.obligations), 25)
